@@ -82,11 +82,8 @@ func (v Version) IvLabel() []byte {
 	}
 }
 
+// InitialSecretLabel is "client in" for every version: QUIC v2 only renames the key, iv, hp and
+// ku labels (RFC 9369, section 3.3.2), not the labels of the initial secrets.
 func (v Version) InitialSecretLabel() []byte {
-	switch v {
-	case Version_V2:
-		return []byte("quicv2 client in")
-	default:
-		return []byte("client in")
-	}
+	return []byte("client in")
 }
